@@ -13,10 +13,11 @@ structure DSt where
   fix : Bool := false      -- code level: horizon repair present
   fixB : Bool := false     -- code level: Basic-auth repair present
   faulted : Bool := false  -- some operation of this block ran while it could not
+  floodNext : Nat := 1000  -- next never-used address number for C12.flood
 
 def startNs : Nat := 946684800 * nsPerSec   -- synctest bubbles start at 2000-01-01T00:00:00Z
 
-def DSt.init : DSt := ⟨St.init 0 0 0, Spec.init 0 0 0, startNs, FMap.empty, FMap.empty, false, true, false, false, false⟩
+def DSt.init : DSt := ⟨St.init 0 0 0, Spec.init 0 0 0, startNs, FMap.empty, FMap.empty, false, true, false, false, false, 1000⟩
 
 def nAddrs : Nat := 16
 
@@ -26,10 +27,12 @@ def dumpMap {β} (m : FMap β) (n : Nat) (f : Nat → β → List String) : List
 
 def userName (k : Nat) : List Nat := [117, 48 + k]   -- "u<k>"
 
-def showDump (st : St) : List String :=
+def showDumpF (floodNext : Nat) (st : St) : List String :=
   (match st.rl with
    | none => ["R", "off"]
-   | some l => "R" :: dumpMap l.recs nAddrs (fun k r => [toString k, toString r.untl, toString r.num])) ++
+   | some l => "R" :: dumpMap l.recs nAddrs (fun k r => [toString k, toString r.untl, toString r.num]) ++
+       -- records of the addresses of floods: their number only
+       ["F", toString ((List.range (floodNext - 1000)).filter (fun j => (l.recs (1000 + j)).isSome)).length]) ++
   ("M" :: dumpMap st.mem st.nextTok (fun k s => [toString k, toString s.expire, toString s.user])) ++
   -- the bucket: raw record bytes as session.serialize writes them
   ("D" :: dumpMap st.db st.nextTok (fun k s => [toString k, hexEncode (encodeSess (userName s.user) s.expire)]))
@@ -75,17 +78,18 @@ def step1 (d : DSt) (line : String) : DSt × String :=
         -- no code level in the line (corpus): the harness reports its own with the answer
         let fix := ((impl.drop 1).headD "0").toNat?.getD 0
         (⟨St.init ma bm ttl, Spec.init ma bm ttl, startNs, FMap.empty, FMap.empty, true, true,
-          fix / 2 % 2 == 1, fix % 2 == 1, false⟩,
+          fix / 2 % 2 == 1, fix % 2 == 1, false, 1000⟩,
          verdict (impl.headD "" == "ok") none "ok")
       | "C12.reset", [some ma, some bm, some ttl, some _, some fix] =>
         -- code level: bit 1 = horizon repair, bit 0 = Basic-auth repair
         (⟨St.init ma bm ttl, Spec.init ma bm ttl, startNs, FMap.empty, FMap.empty, true, true,
-          fix / 2 % 2 == 1, fix % 2 == 1, false⟩,
+          fix / 2 % 2 == 1, fix % 2 == 1, false, 1000⟩,
          verdict (impl.headD "" == "ok") none "ok")
       | "C12.callorder", [] =>
         -- extracted facts: handleLogin asks the limiter before newCookie (which evaluates the
-        -- password); newCookie stores the session before it builds the cookie
-        let want := "check<newCookie;addSession<cookie"
+        -- password); newCookie stores the session before it builds the cookie; checkBasicAuth
+        -- returns on a block before findUser
+        let want := "check<newCookie;addSession<cookie;check<findUser"
         (d, verdict (impl == [want]) (if impl == [want] then none else some "C12.call-order") want)
       | "C12.basic", [some _, some peer, some _, some good, some strict] =>
         if !d.ok then (d, "bad-op") else
@@ -93,7 +97,7 @@ def step1 (d : DSt) (line : String) : DSt × String :=
         let o := Op.basic req (good == 1)
         let r := stepFX d.fix d.fixB d.st d.now d.dbOK o
         let passed := match r.1 with | .login .passed => true | _ => false
-        let mstr := "\t".intercalate ((if passed then "1" else "0") :: showDump r.2)
+        let mstr := "\t".intercalate ((if passed then "1" else "0") :: showDumpF d.floodNext r.2)
         -- HTTP shows only let through / refused; a refusal is read as the answer the spec allows
         let authed := impl.headD "" == "1"
         let io : LoginRes := if authed then .passed
@@ -112,6 +116,69 @@ def step1 (d : DSt) (line : String) : DSt × String :=
         -- extracted fact: in removeSession the map entry is deleted before the file entry
         -- (hypothesis `.memFirst` of C12_logout_final_interleaved)
         (d, verdict (impl == ["memfirst"]) (if impl == ["memfirst"] then none else some "C12.logout-order") "memfirst")
+      | "C12.flood", [some n] =>
+        -- n failed logins from n never-seen addresses, straight at the limiter
+        if !d.ok then (d, "bad-op") else
+        let st' := flood d.st d.now d.floodNext n
+        let d' := { d with st := st', floodNext := d.floodNext + n }
+        let mstr := "\t".intercalate ("ok" :: showDumpF d'.floodNext st')
+        (d', verdict (mstr == "\t".intercalate impl) none mstr)
+      | "C12.heldprobe", [some form, some _, some peer, some good, some _] =>
+        -- is the password evaluated?  (observed on the real code as "parks in findUser")
+        if !d.ok || form > 1 then (d, "bad-op") else
+        let req : Req := ⟨peer, none, false⟩
+        let o : Op := if form == 0 then .login req false 0 else .basic req (good == 1)
+        let r := stepFX d.fix d.fixB d.st d.now d.dbOK o
+        let evaluated := r.2.evals != d.st.evals
+        let resStr := match r.1 with
+          | .login (.tooMany _) => if form == 0 then "429" else "0"
+          | .login .forbidden => if form == 0 then "403" else "0"
+          | .login .passed => "1"
+          | _ => "?"
+        let mstr := "\t".intercalate ((if evaluated then "1" else "0") :: resStr :: showDumpF d.floodNext r.2)
+        let iEval := impl.headD "" == "1"
+        let rej := mustReject d.sp peer d.now && (form == 0 || d.fixB)
+        -- keep the monitor's count in step with what was observed
+        let io : LoginRes := match (impl.drop 1).headD "" with
+          | "1" => .passed | "429" => .tooMany 0 | "403" => .forbidden
+          | _ => if mustReject d.sp peer d.now then .tooMany 0 else .forbidden
+        let sp' := if form == 1 && !d.fixB then d.sp else (specStep d.sp d.now o (.login io)).2
+        ({ d with st := r.2, sp := sp' }, verdict (mstr == "\t".intercalate impl)
+          (if rej && iEval then some "C12.evaluated-while-blocked" else none) mstr)
+      | "C12.findusersites", [] =>
+        -- extracted fact: the functions of package home that call findUser
+        let want := "checkBasicAuth getCurrentUser newCookie"
+        (d, verdict (impl == [want]) (if impl == [want] then none else some "C12.finduser-sites") want)
+      | "C12.areq", [some _, some peer, some ck, some slot, some ak, some _] =>
+        -- a request to a protected route: cookie form x Authorization form
+        if !d.ok || ck > 7 || ak > 8 then (d, "bad-op") else
+        let tokOf (slots : FMap Nat) : CookieForm :=
+          if ck == 0 then .absent
+          else if ck == 1 || ck == 5 || ck == 7 then .token ((slots slot).getD (bogusTok slot))
+          else .token (bogusTok (100 + slot))   -- unknown / malformed / upper-cased / bogus first
+        let af : AuthForm := if ak == 0 then .absent else if ak == 1 then .basic true
+          else if ak == 2 || ak == 3 || ak ≥ 6 then .basic false else .unparsed
+        let req : Req := ⟨peer, none, false⟩
+        let authed := impl.headD "" == "1"
+        match authOp (tokOf d.mslots) af req, authOp (tokOf d.islots) af req with
+        | none, _ =>
+          let mstr := "\t".intercalate ("0" :: showDumpF d.floodNext d.st)
+          (d, verdict (mstr == "\t".intercalate impl) (if authed then some "C12.session" else none) mstr)
+        | some om, oi =>
+          let r := stepFX d.fix d.fixB d.st d.now d.dbOK om
+          let passed := match r.1 with | .auth b => b | .login .passed => true | _ => false
+          let mstr := "\t".intercalate ((if passed then "1" else "0") :: showDumpF d.floodNext r.2)
+          let oi := oi.getD om
+          let io : Obs := match oi with
+            | .basic _ _ => .login (if authed then .passed else if mustReject d.sp peer d.now then .tooMany 0 else .forbidden)
+            | _ => .auth authed
+          let skip := match oi with | .basic _ _ => !d.fixB | _ => false
+          if skip then ({ d with st := r.2 }, verdict (mstr == "\t".intercalate impl) none mstr) else
+          let ok := specOK d.sp d.now oi io
+          let s := specStep d.sp d.now oi io
+          let cls := match oi with | .basic _ _ => "C12.throttle:basic-auth" | _ => "C12.session"
+          let cls' := if !noWrap d.sp d.now then cls ++ ":uint32-horizon" else cls
+          ({ d with st := r.2, sp := s.2 }, verdict (mstr == "\t".intercalate impl) (if ok then none else some cls') mstr)
       | "C12.loginlock", [] =>
         -- fact: controlLock is held while the registered login handler evaluates the password
         -- (hypothesis `lock = true` of C12_logins_serialised_under_lock)
@@ -125,7 +192,7 @@ def step1 (d : DSt) (line : String) : DSt × String :=
           match r.1 with
           | .forbidden => (r.2, acc.2.1 + 1, acc.2.2)
           | _ => (r.2, acc.2.1, acc.2.2 + 1)) (d.st, 0, 0)
-        let mstr := "\t".intercalate ([toString run.2.1, toString run.2.2, "0"] ++ showDump run.1)
+        let mstr := "\t".intercalate ([toString run.2.1, toString run.2.2, "0"] ++ showDumpF d.floodNext run.1)
         -- monitor: the observed answers, the evaluated ones first, must each be allowed
         let i403 := (impl.headD "x").toNat?.getD 0
         let i429 := ((impl.drop 1).headD "x").toNat?.getD 0
@@ -143,7 +210,7 @@ def step1 (d : DSt) (line : String) : DSt × String :=
         let r := logoutRace .memFirst d.st d.now tokM
         -- the racing request may go either way; the monitor only records the logout
         let sp' := (specStep d.sp d.now (.logout ((d.islots slot).getD (bogusTok slot))) .done).2
-        let mstr := "\t".intercalate ((if r.1 then "1" else "0") :: showDump r.2)
+        let mstr := "\t".intercalate ((if r.1 then "1" else "0") :: showDumpF d.floodNext r.2)
         ({ d with st := r.2, sp := sp' }, verdict (mstr == "\t".intercalate impl) none mstr)
       | "C12.dbfail", [some b] =>
         if !d.ok || b > 1 then (d, "bad-op") else
@@ -158,7 +225,7 @@ def step1 (d : DSt) (line : String) : DSt × String :=
         let ms := match lr with | .ok tok => d.mslots.set slot tok | _ => d.mslots
         let il := parseLogin impl
         let is := match il with | some (.ok tok) => d.islots.set slot tok | _ => d.islots
-        finish d o r.1 r.2 (il.map Obs.login) (showLogin lr ++ showDump r.2) impl "C12.throttle" ms is
+        finish d o r.1 r.2 (il.map Obs.login) (showLogin lr ++ showDumpF d.floodNext r.2) impl "C12.throttle" ms is
       | "C12.req", [some slot] =>
         if !d.ok then (d, "bad-op") else
         let r := stepFX d.fix d.fixB d.st d.now d.dbOK (.request ((d.mslots slot).getD (bogusTok slot)))
@@ -166,18 +233,18 @@ def step1 (d : DSt) (line : String) : DSt × String :=
         let io := match impl with
           | "1" :: _ => some (Obs.auth true) | "0" :: _ => some (Obs.auth false) | _ => none
         finish d (.request ((d.islots slot).getD (bogusTok slot))) r.1 r.2 io
-          ((if b then "1" else "0") :: showDump r.2) impl "C12.session" d.mslots d.islots
+          ((if b then "1" else "0") :: showDumpF d.floodNext r.2) impl "C12.session" d.mslots d.islots
       | "C12.logout", [some slot] =>
         if !d.ok then (d, "bad-op") else
         let r := stepFX d.fix d.fixB d.st d.now d.dbOK (.logout ((d.mslots slot).getD (bogusTok slot)))
         finish d (.logout ((d.islots slot).getD (bogusTok slot))) r.1 r.2
           (match impl with | "ok" :: _ => some Obs.done | _ => none)
-          ("ok" :: showDump r.2) impl "C12.session" d.mslots d.islots
+          ("ok" :: showDumpF d.floodNext r.2) impl "C12.session" d.mslots d.islots
       | "C12.restart", [] =>
         if !d.ok then (d, "bad-op") else
         let r := stepFX d.fix d.fixB d.st d.now true .restart
         finish { d with dbOK := true } .restart r.1 r.2 (match impl with | "ok" :: _ => some Obs.done | _ => none)
-          ("ok" :: showDump r.2) impl "C12.session" d.mslots d.islots
+          ("ok" :: showDumpF d.floodNext r.2) impl "C12.session" d.mslots d.islots
       | _, _ => (d, "bad-op")
   | [] => (d, "bad-op")
 
